@@ -37,7 +37,9 @@ func runC14(c *Ctx) {
 	var goIn *ssa.Go
 	eachInstr(f, func(in ssa.Instruction) {
 		if g, ok := in.(*ssa.Go); ok {
-			if fn := staticCallee(g); fn != nil && fn.Parent() == f {
+			if fn := staticCallee(g); fn != nil && (fn.Parent() == f || (fn.Pkg == f.Pkg && len(fn.Blocks) > 0)) {
+				// the helper: a closure of exchange, or (closure-to-method refactoring) a function of the package that
+				// the `go` statement starts with the former captures as arguments
 				helper, goIn = fn, g
 			}
 		}
@@ -65,6 +67,30 @@ func runC14(c *Ctx) {
 		}
 		phi, ok := bo.X.(*ssa.Phi)
 		if !ok || phi.Block() != b {
+			// `for i := range n` (Go 1.22) is lowered to a rotated loop: a pre-test `0 < n` in front of the body, whose
+			// phi starts at 0, and the latch test `i+1 < n` at the end of the body
+			if z, isC := constInt(bo.X); isC && z == 0 && len(b.Succs) == 2 {
+				for _, in := range b.Succs[0].Instrs {
+					ph, isPhi := in.(*ssa.Phi)
+					if !isPhi {
+						break
+					}
+					for _, e := range ph.Edges {
+						inc, isInc := e.(*ssa.BinOp)
+						if !isInc || inc.Op != token.ADD || inc.X != ssa.Value(ph) {
+							continue
+						}
+						if k, isK := constInt(inc.Y); !isK || k != 1 {
+							continue
+						}
+						for _, r := range referrers(inc) {
+							if lt, isLt := r.(*ssa.BinOp); isLt && lt.Op == token.LSS && lt.X == ssa.Value(inc) && lt.Y == bo.Y {
+								loops = append(loops, loop{iff, ph, bo.Y})
+							}
+						}
+					}
+				}
+			}
 			continue
 		}
 		loops = append(loops, loop{iff, phi, bo.Y})
@@ -127,6 +153,9 @@ func runC14(c *Ctx) {
 			if outer[guardKey(g)] || g.If == spawn.iff {
 				continue
 			}
+			if g.Derived {
+				continue
+			}
 			extra = guardText(g)
 		}
 		if sk, _ := iterationCanSkip(goIn, nil); sk && extra == "" {
@@ -159,6 +188,9 @@ func runC14(c *Ctx) {
 	} else {
 		tr := p.newTracer()
 		tr.throughParams, tr.throughFields, tr.throughCalls = false, false, false
+		if helper.Parent() != f {
+			tr.throughParams = true // the helper is a function of its own: what it works on are the `go` statement's arguments
+		}
 		// payload = *(*qc)
 		payload := upCall.Call.Args[2]
 		var ptr ssa.Value
@@ -199,7 +231,13 @@ func runC14(c *Ctx) {
 		c.check(relOK, "copy-released-by-helper", helper.Pos(), "the helper releases its own copy when it ends", "the helper does not release (exactly) its own copy of the query")
 		// the shared packed buffer is not captured by the helper
 		captured := false
-		for _, b := range goIn.Call.Value.(*ssa.MakeClosure).Bindings {
+		var handedOver []ssa.Value
+		if mc, isMC := goIn.Call.Value.(*ssa.MakeClosure); isMC {
+			handedOver = mc.Bindings
+		} else {
+			handedOver = goIn.Call.Args
+		}
+		for _, b := range handedOver {
 			for _, r := range tr.origins(b) {
 				if r == packed {
 					captured = true
@@ -239,7 +277,7 @@ func runC14(c *Ctx) {
 					if st.Dir == types.SendOnly {
 						hasSend = true
 					}
-					if st.Dir == types.RecvOnly && doneID != nil && chanID(st.Chan) == doneID {
+					if st.Dir == types.RecvOnly && doneID != nil && (chanID(st.Chan) == doneID || chanID(stripChanConv(goArg(goIn, helper, st.Chan))) == doneID) {
 						hasDone = true
 					}
 				}
@@ -301,6 +339,30 @@ func runC14(c *Ctx) {
 				if cm, ok := g.asCmp(); ok && isNilConst(cm.Y) && cm.Op == token.EQL && cm.X.Type().String() == "error" {
 					// the error that came with the received result
 					if k, ok := loadedField(cm.X); ok && strings.HasSuffix(k, ".res.err") {
+						errSkipped = true
+					}
+					// whatever the result type is called: an error field of the value received from the result channel
+					var base ssa.Value
+					switch x := cm.X.(type) {
+					case *ssa.Field:
+						base = fieldBase(x)
+					case *ssa.UnOp:
+						base = fieldBase(x.X)
+					}
+					if al, isAl := base.(*ssa.Alloc); isAl {
+						// a local copy of the received value
+						for _, r := range referrers(al) {
+							if st, isSt := r.(*ssa.Store); isSt && st.Addr == ssa.Value(al) {
+								base = st.Val
+							}
+						}
+					}
+					if ex, isEx := base.(*ssa.Extract); isEx {
+						if _, isSel := ex.Tuple.(*ssa.Select); isSel && ex.Index >= 2 {
+							errSkipped = true
+						}
+					}
+					if u, isU := base.(*ssa.UnOp); isU && u.Op == token.ARROW {
 						errSkipped = true
 					}
 				}
@@ -489,9 +551,59 @@ func runC14(c *Ctx) {
 	if q := c.fn(relForward, "Forward", "QuickConfigureExec"); q != nil {
 		unknownErr, allDefault := false, false
 		wholeListElsewhere := false
-		eachInstr(q, func(in ssa.Instruction) {
+		// the tag string as seen inside a function of q's body: q's own parameter, or the parameter of a new helper that
+		// is handed it at the helper's only call site (whose error q must pass on)
+		argsIn := func(g *ssa.Function) ssa.Value {
+			if g == q || g.Parent() != nil {
+				return q.Params[1]
+			}
+			site, _ := soleCallSite(g).(*ssa.Call)
+			if site == nil || site.Parent() != q {
+				return nil
+			}
+			if ok, _ := errCheckedAndReturned(site); !ok {
+				return nil
+			}
+			for i, a := range site.Call.Args {
+				if a == ssa.Value(q.Params[1]) && i < len(g.Params) {
+					return g.Params[i]
+				}
+			}
+			return nil
+		}
+		eachInstrDeep(q, func(q *ssa.Function, in ssa.Instruction) {
+			argsV := argsIn(q)
+			if argsV == nil {
+				return
+			}
 			if lk, ok := in.(*ssa.Lookup); ok {
 				if k, _ := loadedField(lk.X); k == relForward+".Forward.tag2Upstream" {
+					// comma-ok form: `u, ok := m[tag]; if !ok { return error }`
+					if lk.CommaOk {
+						for _, r := range referrers(lk) {
+							ex, isEx := r.(*ssa.Extract)
+							if !isEx || ex.Index != 1 {
+								continue
+							}
+							eachInstr(q, func(y ssa.Instruction) {
+								iff, isIf := y.(*ssa.If)
+								if !isIf {
+									return
+								}
+								for _, truth := range []bool{true, false} {
+									g := guard{Cond: iff.Cond, Truth: truth, If: iff}
+									if v, t := g.asBool(); v == ssa.Value(ex) && !t {
+										if ret, ok := reachFromBlock(succOnTruth(iff, truth), isReturn, nil); ok {
+											rv := returnedValues(ret.(*ssa.Return))
+											if !isNilConst(rv[1]) {
+												unknownErr = true
+											}
+										}
+									}
+								}
+							})
+						}
+					}
 					for _, r := range referrers(lk) {
 						if bo, ok := r.(*ssa.BinOp); ok && bo.Op == token.EQL && isNilConst(bo.Y) {
 							for _, r2 := range referrers(bo) {
@@ -512,8 +624,8 @@ func runC14(c *Ctx) {
 				if k, _ := fieldKey(u.X); k == relForward+".Forward.us" {
 					under := false
 					for _, g := range guardsOfInstr(in) {
-						if cm, ok := g.asCmp(); ok && cm.Op == token.EQL {
-							if cl, ok := cm.X.(*ssa.Call); ok && callName(cl) == "builtin:len" && cl.Call.Args[0] == ssa.Value(q.Params[1]) {
+						if cm, ok := g.asCmp(); ok && (cm.Op == token.EQL || cm.Op == token.LEQ) { // len(args) == 0, or "not len(args) > 0"
+							if cl, ok := cm.X.(*ssa.Call); ok && callName(cl) == "builtin:len" && argsV != nil && cl.Call.Args[0] == argsV {
 								if n, ok := constInt(cm.Y); ok && n == 0 {
 									allDefault = true
 									under = true
@@ -530,4 +642,19 @@ func runC14(c *Ctx) {
 		c.check(unknownErr, "unknown-tag", q.Pos(), "an unknown tag is rejected", "an unknown upstream tag is silently ignored")
 		c.check(allDefault && !wholeListElsewhere, "no-tag-all", q.Pos(), "the whole upstream list is used exactly when no tag is given", "the whole upstream list is used without / outside the 'no tag given' test: a tag subset can silently become all upstreams (e.g. when the tag list is as long as the upstream list)")
 	}
+}
+
+// goArg: for a helper that is a function of its own (started with `go helper(args...)`), the argument bound to the
+// parameter v; v itself otherwise.
+func goArg(g *ssa.Go, helper *ssa.Function, v ssa.Value) ssa.Value {
+	prm, ok := v.(*ssa.Parameter)
+	if !ok || g == nil {
+		return v
+	}
+	for i, q := range helper.Params {
+		if q == prm && i < len(g.Call.Args) {
+			return g.Call.Args[i]
+		}
+	}
+	return v
 }
